@@ -61,8 +61,10 @@ type MergeCase struct {
 	Obs     MergeObs     `json:"obs"`
 }
 
+// (a prefix is taken as given: "MyGw_" names variables starting exactly so)
+//
 //nolint:gochecknoglobals
-var Prefixes = []string{"HEIMDALLCFG_", "HEIMDALLCFG_", "HEIMDALLCFG_", "MY_GW_"}
+var Prefixes = []string{"HEIMDALLCFG_", "HEIMDALLCFG_", "HEIMDALLCFG_", "MY_GW_", "MyGw_"}
 
 // Concretise binds an abstract case to real configuration paths. idx selects binding, value roles
 // and prefix by rotation; rng adds seeded variation.
